@@ -720,6 +720,34 @@ def run_netns_case(case, acc):
                     wantb = [ai.get("broadcast") for ai in r.get("addr_info", []) if ai["family"] == "inet" and ai["local"] == a.address]
                     if wantb and wantb[0] is not None and a.broadcast != wantb[0]:
                         viols.append(("net_if_addrs_broadcast_wrong", f"{name}: got {a.broadcast} want {wantb[0]}"))
+        # the same questions from a daemon-like process: debug messages switched on and a standard error nobody can write to
+        # (descriptor 2 closed, or pointing at a full device; sys.stderr replaced, as daemons do). What the extension tells
+        # about the interfaces must not depend on whether its own diagnostics could be written
+        for mode in ("closed", "full"):
+            acc.count("netns_questions_repeated_with_unwritable_stderr")
+            with _hostile_stderr(ps, mode):
+                try:
+                    stats2, addrs2 = ps.net_if_stats(), ps.net_if_addrs()
+                except Exception as e:  # noqa: BLE001
+                    viols.append((f"net_if_exception:{type(e).__name__}:debug_on_stderr_{mode}",
+                                  f"{e!r} - the same calls answered normally a moment before"))
+                    continue
+                per_nic = {}
+                for name in list(refd) + ["nosuchnic0"]:
+                    for fn in ("net_if_duplex_speed",):
+                        try:
+                            per_nic[(name, fn)] = getattr(env["cext"], fn)(name)
+                        except OSError as e:
+                            per_nic[(name, fn)] = ("OSError", e.errno)
+            if stats2 != stats or addrs2 != addrs:
+                viols.append((f"net_if_answers_differ:debug_on_stderr_{mode}", f"plain: {stats} / {addrs}  now: {stats2} / {addrs2}"))
+            for (name, fn), v in per_nic.items():
+                try:
+                    plain = getattr(env["cext"], fn)(name)
+                except OSError as e:
+                    plain = ("OSError", e.errno)
+                if plain != v:
+                    viols.append((f"{fn}_differs:debug_on_stderr_{mode}", f"{name}: plain {plain!r}, with unwritable stderr {v!r}"))
         # hot-unplug: one interface is deleted right before the k-th native question about it (mtu, flags, duplex/speed)
         if len(made) >= 2:
             h = int(harness.chash(case)[-3:], 16)
@@ -733,6 +761,38 @@ def run_netns_case(case, acc):
         viols = [(m + ":non_ascii_interface_name" if m.startswith("net_if") else m, d) for m, d in viols]
     acc.case(case, any(len(i["name"]) >= 14 or i["addrs"] for i in case["ifs"]), viols)
     harness.mark_current(None)
+
+
+import contextlib
+
+
+@contextlib.contextmanager
+def _hostile_stderr(ps, mode):
+    """psutil's debug messages on, descriptor 2 closed ("closed") or open on /dev/full ("full"), sys.stderr replaced."""
+    import io
+    saved_fd = os.dup(2)
+    saved_err = sys.stderr
+    try:
+        sys.stderr.flush()
+    except Exception:  # noqa: BLE001
+        pass
+    sys.stderr = io.StringIO()
+    try:
+        if mode == "closed":
+            os.close(2)
+        else:
+            fd = os.open("/dev/full", os.O_WRONLY)
+            os.dup2(fd, 2)
+            os.close(fd)
+        ps._set_debug(True)
+        try:
+            yield
+        finally:
+            ps._set_debug(False)
+    finally:
+        os.dup2(saved_fd, 2)
+        os.close(saved_fd)
+        sys.stderr = saved_err
 
 
 class _NativeWatch:
